@@ -124,8 +124,59 @@ def run(tier):
             chk.violation("subunitary", "mapped circuit has a singular value %.12f > 1" % sv.max(), script, sig={"clause": "subunitary"})
         if any(not (0 <= p < ra.TWO_PI) for p in phases):
             chk.violation("phase_range", "programmed phase outside [0, 2 pi) with error model", script, sig={"clause": "phase_range", "family": "error_model"})
+    # ---- histories on long-lived objects: an ErrorModel whose distributions are re-assigned after it has been used, and Reck objects
+    # created with the default model after ANOTHER default-constructed Reck had its error model edited in place
+    def fresh_model(cfg):
+        m = itf.ErrorModel()
+        for attr, mk in cfg.items():
+            setattr(m, attr, mk())
+        return m
+    makers = {"bs_reflectivity": [lambda: dists.TopHat(0.4, 0.6), lambda: dists.Gaussian(0.5, 0.05, min_value=0.35, max_value=0.65), lambda: dists.Constant(0.5)],
+              "loss": [lambda: dists.TopHat(0, 0.2), lambda: dists.Gaussian(0.1, 0.05, min_value=0, max_value=0.2), lambda: dists.Constant(0.0)],
+              "phase_offset": [lambda: dists.TopHat(-0.1, 0.1), lambda: dists.Gaussian(0, 0.1, min_value=-0.2, max_value=0.2), lambda: dists.Constant(0.0)]}
+    for h in range(6 if th else 3):
+        c = lw.Unitary(lw.random_unitary(4, seed=1000 + h))
+        cfg = {a: rng.choice(makers[a]) for a in makers}
+        em = fresh_model(cfg)
+        hist = [("init", {a: type(getattr(em, a)).__name__ for a in makers})]
+        itf.Reck(em).map(c, seed=5)                                  # the model has been used (and seeded) once
+        for step in range(5):
+            attr = rng.choice(list(makers))
+            cfg[attr] = rng.choice(makers[attr])
+            setattr(em, attr, cfg[attr]())
+            hist.append((attr, type(getattr(em, attr)).__name__))
+            sd = rng.randint(0, 10 ** 6)
+            chk.count(key="emhist%d/%d" % (h, step))
+            script = {"history": hist, "seed": sd}
+            try:
+                m1 = itf.Reck(em).map(c, seed=sd)
+                m2 = itf.Reck(em).map(c, seed=sd)
+                m3 = itf.Reck(fresh_model(cfg)).map(c, seed=sd)
+            except Exception as e:  # noqa: BLE001
+                chk.violation("raised", "Reck.map with a re-configured error model raised %s: %s" % (type(e).__name__, e), script, sig={"clause": "raised", "family": "error_model_history"})
+                break
+            if m1.U_full.shape != m2.U_full.shape or np.abs(m1.U_full - m2.U_full).max() > 0:
+                chk.violation("seed", "after re-assigning %s the same seed gave two different mapped circuits" % attr, script, sig={"clause": "seed", "family": "history"})
+                break
+            if m1.U_full.shape != m3.U_full.shape or np.abs(m1.U_full - m3.U_full).max() > 0:
+                chk.violation("seed", "after re-assigning %s the mapped circuit differs from the one of a fresh, identically configured model with the same seed" % attr,
+                              script, sig={"clause": "seed", "family": "history"})
+                break
+    noisy = itf.Reck()
+    noisy.error_model.loss = dists.TopHat(0.05, 0.2)
+    noisy.error_model.bs_reflectivity = dists.TopHat(0.4, 0.6)
+    noisy.map(lw.Unitary(lw.random_unitary(3, seed=1)), seed=2)
+    for n in (2, 3, 5):
+        c = lw.Unitary(lw.random_unitary(n, seed=77 + n))
+        chk.count(key="default-after-noisy%d" % n)
+        m = itf.Reck().map(c)
+        if m.U_full.shape != c.U_full.shape or np.abs(m.U_full - c.U_full).max() > 1e-10:
+            chk.violation("unitary", "Reck() with the default error model no longer reproduces the unitary after ANOTHER Reck() had its error model edited in place "
+                          "(deviation %.3g)" % (np.abs(m.U[:n, :n] - c.U).max()), {"history": "Reck().error_model edited in place, then a new Reck()", "n": n},
+                          sig={"clause": "unitary", "family": "shared_default"})
     chk.traces_validated = chk.evaluations
     chk.add_phase("contract on arbitrary unitaries and error models", error_models=nem)
+    chk.add_phase("histories: re-assigned distributions on a used ErrorModel; default Reck() after another one was edited in place")
     chk.rule = ("cases = (a) every monomial matrix (entries 0 or a 4th root of unity) of size 2, 3 (4 in the thorough tier): TLC executes the nulling schedule and "
                 "the mapped unit cells exactly and the same matrix is mapped by the real Reck; (b) identity, all permutations up to 4 modes, DFT, block "
                 "diagonal, near-degenerate (entries 1e-6 .. 1e-21 around the 1e-20 branch threshold), Haar random up to 12 modes, heralded circuits; "
